@@ -166,7 +166,10 @@ pub(crate) fn on_remove_worker(
         .on_worker_lost(worker_id, &running_tasks, reason);
 
     for task_id in running_tasks {
-        let task = core.get_task_mut(task_id);
+        let Some(task) = core.find_task_mut(task_id) else {
+            // The task was removed when a previous task failed (e.g. max fails of a job was reached)
+            continue;
+        };
         if CrashLimit::NeverRestart == task.configuration.crash_limit {
             log::debug!("Task {task_id} with never restart flag crashed");
             let error_info = TaskFailInfo {
